@@ -183,3 +183,22 @@ def gym_seed(self, seed):
     ensures('seeds-the-inner-environment-with-the-reported-seed', lambda: returned() and len(result()) == 1
             and ghost_calls(inner.set_seed) == 1 and ghost_arg(inner.set_seed, 0, 0) == result()[0])
     ensures('an-explicit-seed-is-used-as-given', lambda: result()[0] == seed)
+
+
+@contract(target=GM + 'GymStateWrapper', args={'env': GYM},
+          stubs={MKS: ('object', {'space': 'Token'}), MKO: ('object', {'space': 'Token'}), TOGYM: 'Token'}, props=['C20'])
+def wrapper_init(env):
+    """wrapping does not change the wrapped environment: the wrapper advertises the state space the environment
+    was configured with"""
+    srep = old(env.outer_env.state_representation)
+    orep = old(env.outer_env.observation_representation)
+    sspace = old(env.state_space)
+    ospace = old(env.observation_space)
+    ensures('total', lambda: returned())
+    ensures('wrapped-environment-unchanged', lambda: same(env.outer_env.state_representation, srep)
+            and same(env.outer_env.observation_representation, orep) and same(env.state_space, sspace)
+            and same(env.observation_space, ospace) and ghost_calls(MKS) == 0 and ghost_calls(MKO) == 0)
+    # (without a state representation there is nothing to advertise; what a gym Wrapper then reports differs between
+    # gym versions)
+    ensures('advertises-the-configured-state-space', lambda: result().env is env and implies(
+        env.state_space is not None, lambda: result().observation_space is env.state_space))
